@@ -182,7 +182,7 @@ def write_evidence(prop, tier, seed, mod, merged, wall, violations, known_hits, 
         "evaluations": merged["evaluations"],
         "distinct_nontrivial": len(merged["digests"]),
         "rule": mod.RULE,
-        "samples": merged["samples"][:8],
+        "samples": merged["samples"][:8] or [{"note": "no case was generated (filter without work items: inconclusive run)"}],
         "counters": dict(sorted(merged["counters"].items())),
         "per_item": merged["per_item"],
         "exhaustive": bool(merged["exhaustive"]) and all(merged["exhaustive"].values())
